@@ -515,6 +515,24 @@ def fact_cfg_first_match(repo):
         return None
 
 
+def fact_partition_relay_keeps_inherited(repo):
+    """PicklePartitionStrategy.store, given a PicklePartition, carries its from_parent index entries into the new index"""
+    try:
+        fn = _pps_store(repo)
+        for n in ast.walk(fn):
+            if isinstance(n, ast.If) and any(isinstance(x, ast.Attribute) and x.attr == "PicklePartition" for x in ast.walk(n.test)) \
+                    and any(isinstance(x, ast.Name) and x.id == "obj" for x in ast.walk(n.test)):
+                body = ast.Module(body=n.body, type_ignores=[])
+                attrs = {x.attr for x in ast.walk(body) if isinstance(x, ast.Attribute)}
+                assigns_index = any(isinstance(x, ast.Assign) and isinstance(x.targets[0], ast.Subscript) and isinstance(x.targets[0].value, ast.Name) and x.targets[0].value.id == "index"
+                                    for x in ast.walk(body))
+                if "from_parent" in attrs and "_index" in attrs and assigns_index:
+                    return True
+        return False
+    except Exception:
+        return None
+
+
 FACTS = []
 
 
@@ -643,6 +661,11 @@ def _f23(repo):
 @fact("cfg_first_match", "option bool")
 def _f24(repo):
     return _opt_bool(fact_cfg_first_match(repo))
+
+
+@fact("partition_relay_keeps_inherited", "option bool")
+def _f25(repo):
+    return _opt_bool(fact_partition_relay_keeps_inherited(repo))
 
 
 def generate(repo):
